@@ -155,6 +155,15 @@ def flatten(eqs):
 
 
 _INT_REQ = {}
+_STRIDES = []
+
+
+def stride_registry():
+    if not _STRIDES:
+        from vlib import propreg, build
+        types, strides = propreg.harvest(build.work_dir())
+        _STRIDES.append({k: v for k, v in strides.items() if 1 not in v})
+    return _STRIDES[0]
 
 
 def int_required(eq):
@@ -207,13 +216,35 @@ def int_required(eq):
     return found
 
 
-def static_check(cls, dim, with_solid, clean, opts, codegen=True):
+CHOOSER_MEMBERS = [('pysph.sph.scheme', 'WCSPHScheme'),
+                   ('pysph.sph.scheme', 'TVFScheme'),
+                   ('pysph.sph.wc.edac', 'EDACScheme'),
+                   ('pysph.sph.iisph', 'IISPHScheme')]
+
+
+def make_chooser(default, chosen, dim, with_solid):
+    """SchemeChooser over four fluid schemes, selection made the way the
+    Application does it (command line option --scheme)."""
+    import argparse
+    from pysph.sph.scheme import SchemeChooser
+    members = {n.replace('Scheme', '').lower(): make_scheme(
+        load(m, n), dim, with_solid, {}) for m, n in CHOOSER_MEMBERS}
+    ch = SchemeChooser(default=default, **members)
+    parser = argparse.ArgumentParser(conflict_handler='resolve')
+    ch.add_user_options(parser.add_argument_group('scheme'))
+    ch.consume_user_options(parser.parse_args(['--scheme', chosen]))
+    return ch
+
+
+def static_check(cls, dim, with_solid, clean, opts, codegen=True,
+                 factory=None):
     """Tier A.  Returns list of (kind, what)."""
     probs = []
     buf = io.StringIO()
     with contextlib.redirect_stdout(buf):
         try:
-            s = make_scheme(cls, dim, with_solid, opts)
+            s = factory() if factory is not None else \
+                make_scheme(cls, dim, with_solid, opts)
         except (ValueError, NotImplementedError, AssertionError) as e:
             return 'unsupported', []
         except Exception as e:  # noqa
@@ -221,7 +252,8 @@ def static_check(cls, dim, with_solid, clean, opts, codegen=True):
         try:
             from pysph.base.kernels import CubicSpline
             s.configure_solver(dt=1e-4, tf=2e-4, pfreq=1000)
-            pas = make_particles(dim, with_solid, cls.__name__)
+            pas = make_particles(dim, with_solid,
+                                 cls.__name__ if cls is not None else '')
             s.setup_properties(pas, clean=clean)
             eqs = s.get_equations()
         except (ValueError, NotImplementedError, AssertionError) as e:
@@ -236,6 +268,21 @@ def static_check(cls, dim, with_solid, clean, opts, codegen=True):
         ctypes = {pa.name: {p: a.get_c_type()
                             for p, a in pa.properties.items()}
                   for pa in pas}
+        # strides: a property that the tree only ever declares with a
+        # stride > 1 (e.g. the 3x3 tensors of GTVF/CRKSPH, stride 9) is
+        # indexed as stride*d_idx+i by the equations that use it
+        reg = stride_registry()
+        for pa in pas:
+            for p in pa.properties:
+                want = reg.get(p)
+                have = pa.stride.get(p, 1)
+                if want and have not in want and have * \
+                        pa.get_number_of_particles() == \
+                        pa.properties[p].length:
+                    probs.append(('property-stride:%s' % p,
+                                  '%s.%s has stride %d, the sources declare '
+                                  'it with stride %s' % (pa.name, p, have,
+                                                         sorted(want))))
         for eq in flatten(eqs):
             d, ss, idd, iss = T.equation_needs(eq)
             for pre, prop in int_required(eq):
@@ -270,7 +317,8 @@ def static_check(cls, dim, with_solid, clean, opts, codegen=True):
                         type(eq).__name__, ','.join(sorted(miss))),
                         '%s on source %r needs %s' % (
                             type(eq).__name__, src, sorted(miss))))
-        integ = s.solver.integrator
+        solver_ = getattr(s, 'solver', None) or s.scheme.solver
+        integ = solver_.integrator
         for name, st in integ.steppers.items():
             if name not in arrays:
                 probs.append(('stepper-for-unknown-array', name))
@@ -294,7 +342,7 @@ def static_check(cls, dim, with_solid, clean, opts, codegen=True):
                 from pysph.sph.acceleration_eval import \
                     make_acceleration_evals
                 from pysph.sph.sph_compiler import SPHCompiler
-                kernel = s.solver.kernel
+                kernel = solver_.kernel
                 aes = make_acceleration_evals(pas, eqs, kernel)
                 comp = SPHCompiler(aes, integ)
                 code = comp._get_code()
@@ -384,6 +432,22 @@ def _static_job(args):
                         dict(scheme=name, mod=mod, dim=dim, solid=solid,
                              clean=clean, opts=opts, tier='A'), nd))
     return n, nsup, out
+
+
+def _chooser_job(args):
+    default, chosen, dim, solid, clean = args
+    status, probs = static_check(
+        None, dim, solid, clean, {}, codegen=True,
+        factory=lambda: make_chooser(default, chosen, dim, solid))
+    out = []
+    for kind, what in probs[:3]:
+        out.append(('scheme:SchemeChooser:%s' % kind,
+                    '%s [default=%s chosen=%s dim=%d solid=%s clean=%s]' % (
+                        what, default, chosen, dim, solid, clean),
+                    dict(scheme='SchemeChooser', default=default,
+                         chosen=chosen, dim=dim, solid=solid, clean=clean,
+                         tier='A'), 0))
+    return 1, (0 if status == 'unsupported' else 1), out
 
 
 # (scheme, dim, solid) cases whose two-step run is NOT judged; decided on the
@@ -482,6 +546,7 @@ def run(ctx):
     sjobs = []
     rjobs = []
     complete = {}
+    sjobs_extra = [0, 0]
     for mod, name in SCHEMES:
         cls = load(mod, name)
         menu = option_menu(cls)
@@ -527,7 +592,24 @@ def run(ctx):
     viol = {}
     import time as _t
     tA0 = _t.time()
-    res = map_jobs(_static_job, sjobs, ctx.ncpu, job_timeout=3000)
+    names = [n.replace('Scheme', '').lower() for m, n in CHOOSER_MEMBERS]
+    cjobs = [(d, c, dim, solid, clean) for d in names for c in names
+             for dim in (2, 3) for solid in (False, True)
+             for clean in (True, False)]
+    both = map_jobs(lambda j: _static_job(j[1]) if j[0] == 's' else
+                    _chooser_job(j[1]),
+                    [('s', j) for j in sjobs] + [('c', j) for j in cjobs],
+                    ctx.ncpu, job_timeout=3000)
+    res = both[:len(sjobs)]
+    for job, r in zip(cjobs, both[len(sjobs):]):
+        if isinstance(r, Crash):
+            viol.setdefault('scheme:SchemeChooser:crash', (
+                0, r.reason, dict(scheme='SchemeChooser', job=list(job))))
+            continue
+        sjobs_extra[0] += r[0]
+        sjobs_extra[1] += r[1]
+        for key, what, rep, nd in r[2]:
+            viol.setdefault(key, (nd, what, rep))
     tA = _t.time() - tA0
     nA = nsupA = 0
     for job, r in zip(sjobs, res):
@@ -560,7 +642,10 @@ def run(ctx):
             if key not in viol or nd < viol[key][0]:
                 viol[key] = (nd, what, rep)
     vs = [Violation(k, w, rep) for k, (nd, w, rep) in sorted(viol.items())]
+    nA += sjobs_extra[0]
+    nsupA += sjobs_extra[1]
     cov = dict(evaluations=nA + nB, distinct_nontrivial=nsupA + nB,
+               chooser_configurations=sjobs_extra[0],
                tierA_configurations=nA, tierA_supported=nsupA,
                tierB_compiled_runs=nB, schemes=complete, exhaustive=True,
                tierA_seconds=round(tA, 1), tierB_seconds=round(tB, 1),
